@@ -73,6 +73,13 @@ def step (st : DrvState) (line : String) : DrvState × String :=
       | some v => (st, s!"ok p3={Gen.of_popcount_3 v} h32={Gen.of_hweight32 (v % 4294967296)} naive={Gen.of_hweight32_naive (v % 4294967296)}")
       | none => (st, "bad-op")
   | ["tabcheck"] => (st, "ok " ++ String.intercalate ";" TabCheck.all)
+  | ["wfcheck", n, rows] => match nat? n with
+      | some n =>
+        -- rows: "0,1,2;3,4;" ; the well-formedness hypothesis of the C04 theorems, evaluated
+        let Hl := ((rows.splitOn ";").filter (· != "")).map fun r => (r.splitOn ",").filterMap String.toNat?
+        let ok := Hl.all fun row => row.all (· < n) && row.length != 1 && decide row.Nodup
+        (st, s!"ok wf={if ok then 1 else 0}")
+      | none => (st, "bad-op")
   | ws => match parseApi ws with
     | some op => let (w, o) := Api.step bytesIO st.world op; ({ st with world := w }, o)
     | none => (st, "bad-op")
